@@ -1,10 +1,229 @@
-import CoclsModel.Chain
-/-! # C01 — property theorems (placeholder while the invariant proofs are being written) -/
+import CoclsModel.ChainProofs
+/-!
+# C01 — a future is resolved exactly once, by exactly one winner
+
+Model: `Chain.lean` (micro-step model of `promise::operator()` / `~promise` / `future::set` / `resolve`, validated
+step-for-step against `future.h` / `awaiter.h` by the baton harness).  Every theorem quantifies over **every**
+configuration `c : Cfg` — any number of resolver calls of any payload kind (value, exception, drop), destructor
+agents and waiters of every kind — and **every** schedule (`Reachable c s` = `∃ sched, s = run c (init c) sched`;
+the proofs are by induction over the schedule through the invariant `Inv` of `ChainProofs.lean`).  The only
+configuration hypothesis, used by the quiescence statements alone, is `WF c`: there is a resolving party at all.
+
+Ghost fields read by the statements: `wins` (number of successful claims: `claim()` exchanges / destructor loads that
+found the owner pointer set), `winner` (who made it).  `Ev.ret t b` is the boolean carried by the suspend point that
+call `t` returns.
+-/
 namespace Cocls.Chain
+
+/-- a small but non-trivial configuration for the witnesses: a value resolver, a drop resolver, a coroutine waiter,
+a blocking waiter and the destructor -/
+def exCfg : Cfg :=
+  { n := 5
+    kind := fun i => match i with
+      | 0 => Kind.res (RK.value 7)
+      | 1 => Kind.res RK.drop
+      | 2 => Kind.wait WK.coro
+      | 3 => Kind.wait WK.sync
+      | _ => Kind.dtor }
+
+/-- both waiters subscribe, the value resolver wins the claim against the drop resolver, walks the chain; everybody finishes -/
+def schedA : List Nat := [2, 2, 3, 3, 3, 0, 1, 0, 0, 0, 1, 3, 3, 4, 4, 2]
+/-- as `schedA` but the drop resolver wins -/
+def schedB : List Nat := [2, 2, 3, 3, 3, 1, 0, 1, 1, 1, 1, 0, 3, 3, 3, 4, 4, 2]
+/-- only waiters and the destructor: the destructor resolves -/
+def exCfgD : Cfg :=
+  { n := 3
+    kind := fun i => match i with
+      | 0 => Kind.wait WK.cb
+      | 1 => Kind.wait WK.hasv
+      | _ => Kind.dtor }
+def schedD : List Nat := [0, 0, 1, 1, 1, 2, 2, 2, 2, 0, 1]
+
+/-! ## exactly one winner -/
+
+/-- **Unique winner (safety).**  In every reachable state at most one claim has succeeded; `wins = 1` exactly when a
+winner is recorded, and exactly when the owner pointer has been taken. -/
+theorem c01_unique_winner (c : Cfg) (s : State) (hr : Reachable c s) :
+    s.wins ≤ 1 ∧ (s.wins = 1 ↔ ∃ w, s.winner = some w) ∧ (s.wins = 1 ↔ s.owner = false) := by
+  have h := hr.inv
+  cases ho : s.owner
+  · obtain ⟨h1, h2⟩ := h.own_f ho
+    exact ⟨by omega, ⟨fun _ => h2, fun _ => h1⟩, ⟨fun _ => rfl, fun _ => h1⟩⟩
+  · obtain ⟨h1, h2⟩ := h.own_t ho
+    refine ⟨by omega, ⟨fun h3 => by omega, fun ⟨w, hw⟩ => by rw [h2] at hw; cases hw⟩, ⟨fun h3 => by omega, fun h3 => by cases h3⟩⟩
+
+/-- **Unique winner (at quiescence).**  When all agents have finished and the configuration contains a resolving party,
+exactly one claim has succeeded — and the winner is a resolver call or the destructor of the configuration. -/
+theorem c01_unique_winner_quiescent (c : Cfg) (s : State) (hr : Reachable c s) (hwf : WF c) (hq : Quiescent c s) :
+    s.wins = 1 ∧ ∃ w, s.winner = some w ∧ w < c.n ∧ (c.kind w).resolving = true := by
+  obtain ⟨t, ht, hk⟩ := hwf
+  obtain ⟨h1, _, w, hw⟩ := quiescent_ready c s hr.inv t ht hk (hq.all hr.inv)
+  obtain ⟨h2, h3, _⟩ := hr.inv.winpc w hw
+  exact ⟨h1, w, hw, h2, (resolving_iff _).2 h3⟩
+
+example : (run exCfg (init exCfg) schedA).wins = 1 ∧ (run exCfg (init exCfg) schedA).winner = some 0 := by decide
+example : WF exCfg ∧ Quiescent exCfg (run exCfg (init exCfg) schedA) := by decide
+example : (run exCfgD (init exCfgD) schedD).winner = some 2 ∧ Quiescent exCfgD (run exCfgD (init exCfgD) schedD) := by decide
+/-- without a resolving party nobody wins (so `WF` cannot be dropped from the quiescence statement) -/
+example : (run { n := 1, kind := fun _ => Kind.wait WK.coro } (init { n := 1, kind := fun _ => Kind.wait WK.coro }) [0, 0, 0]).wins = 0 := by
+  decide
+
+/-- **The winner never changes.**  Once a winner is recorded no step of any agent (enabled or not) changes it or
+the number of wins. -/
+theorem c01_winner_stable (c : Cfg) (s : State) (hr : Reachable c s) (w : Nat) (hw : s.winner = some w) (t : Nat) :
+    (astep c s t).1.winner = some w ∧ (astep c s t).1.wins = s.wins :=
+  astep_winner c t s hr.inv w hw
+
+example : (run exCfg (init exCfg) (schedA.take 6)).winner = some 0 := by decide
+
+/-- **Exactly one call reports success** (trace level).  In the event trace of *any* schedule, resolver call `t` has
+emitted `ret t b` exactly once if it has finished — with `b = true` iff `t` is the recorded winner — and never
+otherwise; no other `ret` events exist.  Hence: every call returns at most once, at most one call ever returns
+`true`, that call is the winner, and every other finished call returned `false`. -/
+theorem c01_returns (c : Cfg) (sched : List Nat) (t : Nat) (b : Bool) :
+    (runEv c (init c) sched).2.count (Ev.ret t b) =
+      if isResCall c t = true ∧ (run c (init c) sched).pc t = Pc.done
+          ∧ b = decide ((run c (init c) sched).winner = some t) then 1 else 0 := by
+  rw [ret_count]
+  simp only [isResCall_iff, and_assoc]
+
+/-- corollary: two calls that both reported success are the same call -/
+theorem c01_one_success (c : Cfg) (sched : List Nat) (t t' : Nat)
+    (h1 : Ev.ret t true ∈ (runEv c (init c) sched).2) (h2 : Ev.ret t' true ∈ (runEv c (init c) sched).2) : t = t' := by
+  have k1 := c01_returns c sched t true
+  have k2 := c01_returns c sched t' true
+  have p1 := List.count_pos_iff.2 h1
+  have p2 := List.count_pos_iff.2 h2
+  split at k1
+  · split at k2
+    · rename_i a1 a2
+      have e1 := a1.2.2; have e2 := a2.2.2
+      simp only [true_eq_decide_iff] at e1 e2
+      rw [e1] at e2; injection e2
+    · omega
+  · omega
+
+/-- corollary: at quiescence every resolver call has returned exactly once, `true` for the winner and `false` for all others -/
+theorem c01_returns_quiescent (c : Cfg) (sched : List Nat) (hq : Quiescent c (run c (init c) sched)) (t : Nat)
+    (ht : isResCall c t = true) :
+    (runEv c (init c) sched).2.count (Ev.ret t (decide ((run c (init c) sched).winner = some t))) = 1
+    ∧ (runEv c (init c) sched).2.count (Ev.ret t (!decide ((run c (init c) sched).winner = some t))) = 0 := by
+  have hd := hq t ((isResCall_iff c t).1 ht).1
+  constructor
+  · rw [c01_returns]; simp [ht, hd]
+  · rw [c01_returns]; simp [ht, hd]
+
+example : (runEv exCfg (init exCfg) schedA).2.count (Ev.ret 0 true) = 1
+    ∧ (runEv exCfg (init exCfg) schedA).2.count (Ev.ret 1 false) = 1
+    ∧ (runEv exCfg (init exCfg) schedA).2.count (Ev.ret 1 true) = 0 := by decide
+
+/-! ## the result is the winner's payload and is stable -/
+
+/-- **Result = the winner's payload.**  In every reachable state with the slot `ready` there is a recorded winner, it is
+a resolver call or the destructor, and the stored payload is exactly what that agent delivers: `RK.payload` of its
+kind (value / exception / no-value for `drop`) for a resolver call, no-value for the destructor. -/
+theorem c01_result_is_winners (c : Cfg) (s : State) (hr : Reachable c s) (hs : s.slot = Slot.ready) :
+    ∃ w, s.winner = some w ∧ w < c.n ∧
+      ((∃ k, c.kind w = Kind.res k ∧ s.payload = k.payload) ∨ (c.kind w = Kind.dtor ∧ s.payload = Outcome.none)) := by
+  obtain ⟨w, hw, _, hp⟩ := hr.inv.ready_phase hs
+  obtain ⟨h2, h3, _⟩ := hr.inv.winpc w hw
+  refine ⟨w, hw, h2, ?_⟩
+  unfold winPayload at hp
+  cases hk : c.kind w with
+  | res k => left; exact ⟨k, rfl, by simpa [hk] using hp⟩
+  | dtor => right; exact ⟨rfl, by simpa [hk] using hp⟩
+  | wait k => simp [hk, Kind.cls] at h3
+
+/-- before the resolution nothing is stored: the payload is written only by the winner -/
+theorem c01_no_result_before (c : Cfg) (s : State) (hr : Reachable c s) (hs : s.slot ≠ Slot.ready) :
+    s.payload = Outcome.none := by
+  rcases slot_cases s with h | ⟨l, hl⟩
+  · exact absurd h hs
+  · exact (hr.inv.chain_phase l hl).1
+
+example : (run exCfg (init exCfg) (schedA.take 7)).slot ≠ Slot.ready ∧ (run exCfg (init exCfg) (schedA.take 7)).wins = 1 := by decide
+example : (run exCfg (init exCfg) schedA).slot = Slot.ready ∧ (run exCfg (init exCfg) schedA).payload = Outcome.val 7 := by decide
+example : (run exCfg (init exCfg) schedB).winner = some 1 ∧ (run exCfg (init exCfg) schedB).payload = Outcome.none := by decide
+
+/-- **Stability.**  Once the slot is `ready`, no step of any agent (enabled or not) changes the slot or the payload. -/
+theorem c01_stable (c : Cfg) (s : State) (hr : Reachable c s) (t : Nat) (hs : s.slot = Slot.ready) :
+    (astep c s t).1.slot = Slot.ready ∧ (astep c s t).1.payload = s.payload :=
+  astep_stable c t s hr.inv hs
+
+/-- stability along every continuation of the schedule -/
+theorem c01_stable_run (c : Cfg) (s : State) (hr : Reachable c s) (hs : s.slot = Slot.ready) (sched : List Nat) :
+    (run c s sched).slot = Slot.ready ∧ (run c s sched).payload = s.payload :=
+  run_stable c s hr.inv hs sched
+
+example : (run exCfg (init exCfg) (schedA.take 8)).slot = Slot.ready
+    ∧ (run exCfg (init exCfg) (schedA.take 8)).payload = (run exCfg (init exCfg) schedA).payload := by decide
+
+/-! ## losers -/
 
 /-- a losing call leaves no trace: the only thing a failed claim changes is the caller's own program counter -/
 theorem c01_loser_no_trace (c : Cfg) (s : State) (t : Nat) (hpc : s.pc t = Pc.rClaim) (hown : s.owner = false) :
     (astep c s t).1 = setPc s t Pc.rFinLost := by
   unfold astep; simp [hpc, hown]
+
+/-- **Every other call reports failure and leaves no trace.**  A call that claims in a reachable state where somebody
+has already won: its two steps change nothing but its own program counter, and it returns `false`. -/
+theorem c01_loser_returns_false (c : Cfg) (s : State) (hr : Reachable c s) (t : Nat) (hpc : s.pc t = Pc.rClaim)
+    (hwon : s.wins = 1) :
+    astep c s t = (setPc s t Pc.rFinLost, [Ev.opXchgOwner t false])
+    ∧ astep c (setPc s t Pc.rFinLost) t = (setPc s t Pc.done, [Ev.ret t false, Ev.fin t]) := by
+  have hown : s.owner = false := ((c01_unique_winner c s hr).2.2).1 hwon
+  constructor
+  · unfold astep; simp [hpc, hown]
+  · unfold astep; simp [setPc_setPc]
+
+example : (run exCfg (init exCfg) (schedA.take 6)).pc 1 = Pc.rClaim ∧ (run exCfg (init exCfg) (schedA.take 6)).wins = 1 := by decide
+
+/-! ## drop / destruction is observed as "canceled", not as a hang -/
+
+/-- what awaiting code observes on a future resolved without a value: `value()` throws `await_canceled_exception`,
+the `has_value()` awaiter yields `false` -/
+theorem c01_drop_value (s : State) (k : WK) (hp : s.payload = Outcome.none) :
+    obsOf s k Seen.ready = if k = WK.hasv then Obs.hv false else Obs.canceled := by
+  unfold obsOf; cases k <;> simp [hp]
+
+/-- **Drop / destruction observed.**  If the winner is a `drop` call or the destructor, then in every reachable state
+with the slot `ready` the payload is no-value, and *every* result read emitted by any step (by a woken waiter, by a
+waiter that found the future ready, or by the walker on behalf of a callback / coroutine) is `canceled`
+(`hv false` for the `has_value()` awaiter) — never a value, never "not ready".  That no waiter is left hanging is
+`c02_no_lost_wakeup` / `c02_not_stuck`. -/
+theorem c01_drop_observed (c : Cfg) (s : State) (hr : Reachable c s) (w : Nat) (hw : s.winner = some w)
+    (hk : c.kind w = Kind.res RK.drop ∨ c.kind w = Kind.dtor) :
+    (s.slot = Slot.ready → s.payload = Outcome.none) ∧
+    ∀ t x o, Ev.obs x o ∈ (astep c s t).2 → o = if wkOf c x = WK.hasv then Obs.hv false else Obs.canceled := by
+  have hp : s.slot = Slot.ready → s.payload = Outcome.none := by
+    intro hs
+    obtain ⟨w', hw', _, hp⟩ := hr.inv.ready_phase hs
+    rw [hw] at hw'; injection hw' with hw'; subst hw'
+    rw [hp]; unfold winPayload
+    rcases hk with hk | hk <;> simp [hk, RK.payload]
+  refine ⟨hp, ?_⟩
+  intro t x o he
+  obtain ⟨hs, ho, _, _⟩ := astep_obs c t s hr.inv x o he
+  rw [ho]; exact c01_drop_value s _ (hp hs)
+
+/-- whole-run form: for every schedule whose final winner is a `drop` call or the destructor, every result read that
+occurs anywhere in the trace is `canceled` (`hv false` for the `has_value()` awaiter) -/
+theorem c01_drop_observed_trace (c : Cfg) (sched : List Nat) (w : Nat)
+    (hw : (run c (init c) sched).winner = some w) (hk : c.kind w = Kind.res RK.drop ∨ c.kind w = Kind.dtor)
+    (x : Nat) (o : Obs) (he : Ev.obs x o ∈ (runEv c (init c) sched).2) :
+    o = if wkOf c x = WK.hasv then Obs.hv false else Obs.canceled := by
+  obtain ⟨pre, t, post, hsched, _, hmem⟩ := runEv_mem c sched _ he
+  have hr := reachable_run c pre
+  obtain ⟨hs, ho, _, _⟩ := astep_obs c t _ hr.inv x o hmem
+  have hrun : run c (init c) sched = run c (run c (init c) pre) (t :: post) := by rw [hsched, run_append]
+  obtain ⟨hs', hp'⟩ := run_stable c _ hr.inv hs (t :: post)
+  rw [← hrun] at hs' hp'
+  have hnone := (c01_drop_observed c _ (reachable_run c sched) w hw hk).1 hs'
+  rw [ho]; exact c01_drop_value _ _ (by rw [← hp', hnone])
+
+example : Ev.obs 2 Obs.canceled ∈ (runEv exCfg (init exCfg) schedB).2 ∧ Ev.obs 3 Obs.canceled ∈ (runEv exCfg (init exCfg) schedB).2 := by
+  decide
+example : Ev.obs 0 Obs.canceled ∈ (runEv exCfgD (init exCfgD) schedD).2 ∧ Ev.obs 1 (Obs.hv false) ∈ (runEv exCfgD (init exCfgD) schedD).2 := by
+  decide
 
 end Cocls.Chain
